@@ -137,6 +137,36 @@ def check_labels():
     return None
 
 
+class PagingGH:
+    def __init__(self, pages, decision='APPROVED'):
+        self.pages, self.decision, self.queries = pages, decision, []
+
+    async def post(self, url, data=None):
+        q = data['query']
+        self.queries.append(q)
+        idx = 0
+        for i in range(len(self.pages)):
+            if 'after: "cur%d"' % i in q:
+                idx = i + 1
+        nodes = self.pages[idx]
+        return {'data': {'repository': {'pullRequest': {'reviewDecision': self.decision, 'commits': {'nodes': [{'commit': {'statusCheckRollup': {'contexts': {'nodes': nodes, 'pageInfo': {'endCursor': 'cur%d' % idx, 'hasNextPage': idx + 1 < len(self.pages)}}}}}]}}}}}
+
+
+def check_paging():
+    def ctxs(names, bad=()):
+        return [{'__typename': 'StatusContext', 'context': n, 'state': 'FAILURE' if n in bad else 'SUCCESS', 'isRequired': True} for n in names]
+
+    for pages, bad in (([ctxs(['c%d' % i for i in range(10)]), ctxs(['lint', 'docs'], bad=('lint',))], 'lint'), ([ctxs(['a']), ctxs(['b']), ctxs(['c'], bad=('c',))], 'c')):
+        wb, pr = make(statuses={})
+        gh = PagingGH(pages)
+        asyncio.run(pr._update_github(gh))
+        got = pr.last_known_github_status
+        want = {c['context'] for p in pages for c in p}
+        if set(got) != want or got.get(bad) != GS.FAILURE:
+            return {'confirmed': True, 'what': 'status checks beyond the first page(s) are lost: a failing required check is not recorded', 'pages': [[c['context'] for c in p] for p in pages], 'failing_check': bad, 'recorded': {k: v.name for k, v in got.items()}, 'graphql_requests': len(gh.queries)}
+    return None
+
+
 def check_start_build_resets():
     """_start_build with every external step failing at once: build_state must have been reset before anything else"""
     wb, pr = make()
@@ -162,7 +192,7 @@ def check_start_build_resets():
 
 
 res = None
-for f in (check_mergeable, check_try_to_merge, check_new_head, check_labels, check_start_build_resets):
+for f in (check_mergeable, check_try_to_merge, check_new_head, check_labels, check_paging, check_start_build_resets):
     try:
         res = f()
     except Exception as e:  # pylint: disable=broad-except
